@@ -84,9 +84,9 @@ func lastID(f *fixture) string {
 }
 
 func runPub(c *h.Ctx, r *h.Report) {
-	r.Rule = "POST requests through Hub.ServeHTTP on both transports: publish claim in {absent, null, [], literals, templates, '*' at every position, namespaced fallback} built relative to the generated topics (each topic covered by a literal / a template / '*' / not covered; forbidden topic at every position), 1-5 topics, private absent/empty/any value, retry in a grammar of valid and invalid numerals, content types and malformed bodies, credential in header/query/cookie, compatibility mode on/off. After each request a '*' watcher, the transport's last event id and (Bolt) the stored history are compared with the model's state. Non-trivial = mixed covered/forbidden topic list, or refusal after successful authentication; distinct by content."
+	r.Rule = "POST requests through Hub.ServeHTTP on both transports: publish claim in {absent, null, [], literals, templates, '*' at every position, namespaced fallback} built relative to the generated topics, with overlapping selectors (a topic covered twice) in one case out of four (each topic covered by a literal / a template / '*' / not covered; forbidden topic at every position), 1-5 topics, private absent/empty/any value, retry in a grammar of valid and invalid numerals, content types and malformed bodies, credential in header/query/cookie, compatibility mode on/off. After each request a '*' watcher, the transport's last event id and (Bolt) the stored history are compared with the model's state. Non-trivial = mixed covered/forbidden topic list, or refusal after successful authentication; distinct by content."
 	o := gen.NewOracle()
-	n := c.Scale(600, 20000)
+	n := c.Scale(1500, 20000)
 	now := time.Now()
 	type fx struct {
 		f   *fixture
@@ -328,6 +328,15 @@ func genPubCase(rr *h.Rand, o *gen.Oracle) pubCase {
 			topic = "forbidden/" + gen.Literal(rr, false)
 		}
 		cs.Topics = append(cs.Topics, topic)
+		// overlapping selectors: a topic covered twice (its own literal besides the template, or the same
+		// selector again) must not make up for another topic that no selector covers
+		if len(claim) > 0 && rr.Chance(1, 4) {
+			if rr.Bool() {
+				claim = append(claim, claim[len(claim)-1])
+			} else {
+				claim = append(claim, topic)
+			}
+		}
 	}
 	if rr.Chance(1, 5) {
 		claim = append(claim, "*")
